@@ -137,7 +137,7 @@ class RealNode:
         supv._verif_node = self
         supv.external_publisher = None
         supv.options.auto_fence = True
-        supv.state_modes = SupvisorsStateModes(supv)
+        supv.state_modes = _state_modes_class()(supv)
         supv.context = Context(supv)
         supv.rpc_handler = RpcHandler(supv)
         supv.rpc_handler.proxy_server.klass = _proxy_class_cached()
@@ -239,9 +239,7 @@ class RealNode:
             svenv.CLOCK.now = now
             # Context.invalidate isolates when auto_fence is set and the Master is in a working state:
             # that condition is the environment input `iso`
-            lsm = self.supv.state_modes.local_state_modes
-            lsm.master_identifier = ident(self.me)
-            lsm.state = SupvisorsStates.OPERATION if iso else SupvisorsStates.OFF
+            self.supv.state_modes._verif_master_state = SupvisorsStates.OPERATION if iso else SupvisorsStates.OFF
             ctx.invalidate_failed()
         elif kind == 'Activate':
             svenv.CLOCK.now = o[1]
@@ -261,6 +259,21 @@ class RealNode:
 
 
 _PC = []
+_SM = []
+
+
+def _state_modes_class():
+    """ SupvisorsStateModes whose `master_state` (the Master's FSM state as known locally: control plane, Node.v)
+    is an input of the harness: it only decides between STOPPED and ISOLATED in Context.invalidate """
+    if not _SM:
+        from supvisors.statemodes import SupvisorsStateModes
+
+        class HarnessStateModes(SupvisorsStateModes):
+            _verif_master_state = None
+            master_state = property(lambda self: self._verif_master_state)
+        _SM.append(HarnessStateModes)
+    return _SM[0]
+
 
 
 def _proxy_class_cached():
@@ -319,7 +332,8 @@ def robs_delta(prev, cur):
     cprocs = dict(cur[1])
     changed = [(k, v) for k, v in cur[1] if pprocs.get(k) != v]
     deleted = [k for k, _ in prev[1] if k not in cprocs]
-    return (list(cur[0]), [(k, tuple(v[:6]) + (list(v[6]),)) for k, v in changed], deleted)
+    adms = None if list(cur[0]) == list(prev[0]) else app('Some', list(cur[0]))
+    return (adms, [(k, tuple(v[:6]) + (list(v[6]),)) for k, v in changed], deleted)
 
 
 ALL_PEERS = [1, 2, 3, 4, 5, 6]
